@@ -208,6 +208,29 @@ def rule_text(ctx, mod, ci):
         ok = bool(paths) and all(p.kind == "raise" and p.value == "NoteFormatError" for p in paths)
         ctx.check(ok, R, "set_note.rejects[%s]" % label, fs.where(), "set_note(<%s>)" % label,
                   "malformed name gives %s instead of NoteFormatError" % [(p.kind, p.value) for p in paths])
+    # a rejected text leaves the note as it was (name, octave, velocity, channel)
+    for label, args, kw in (("bad octave text", ["D-x", 4, {}], {}), ("empty octave text", ["Db-", 4, {}], {}), ("bad name, new dynamics", ["H", 4, None], {"velocity": 10, "channel": 7}),
+                            ("good name, channel out of range", ["D", 5, None], {"velocity": 100, "channel": 16}),
+                            ("good name, velocity out of range via dynamics", ["D", 5, {"velocity": 128, "channel": 3}], {})):
+        before = {"name": "C", "octave": 4, "velocity": 64, "channel": 1}
+
+        def mk(args=args):
+            return [note_obj(ci, **before)] + list(args)
+        try:
+            paths = paths_of(ctx.repo, fs, mk, kwargs=dict(kw))
+        except CannotDecide as e:
+            raise AnalysisError("set_note(<%s>): %s" % (label, e))
+        ok, why = bool(paths), "no outcome"
+        for p in paths:
+            o = p.interp.args[0]
+            after = {k: o.attrs.get(k) for k in before}
+            if p.kind != "raise":
+                ok, why = False, "a malformed request (%s) is accepted: %s %r" % (label, p.kind, p.value)
+                break
+            if after != before:
+                ok, why = False, "the request is rejected (%s) but the note has changed from %s to %s" % (p.value, before, after)
+                break
+        ctx.check(ok, R, "set_note.rejected-unchanged[%s]" % label, fs.where(), "set_note(<%s>) on C-4 vel 64 ch 1" % label, why)
     # printed form agrees with the reader's grammar
     fr = _method(ctx, ci, "__repr__")
     paths = paths_of(ctx.repo, fr, [note_obj(ci, name="C#", octave=5)])
@@ -255,8 +278,9 @@ def rule_bounds(ctx, mod, ci):
             ok = bool(paths) and all(p.kind == "raise" and p.value == "ValueError" for p in paths)
             ctx.check(ok, R, "%s.rejects.%s" % (mname, label), fi.where(), "%s(v) for v %s 0..%d" % (mname, label, hi),
                       "out-of-range value gives %s" % [(p.kind, p.value) for p in paths])
-    # who may write self.velocity / self.channel
-    allowed = {"velocity": {"set_velocity", "empty"}, "channel": {"set_channel", "empty"}}
+    # who stores self.velocity / self.channel: the setters (decided above), empty() (constants), and any other
+    # method is driven with caller data on both sides of the range
+    setters = {"velocity": {"set_velocity", "empty"}, "channel": {"set_channel", "empty"}}
     writers = {"velocity": set(), "channel": set()}
     for mname, m in ci.methods.items():
         for n in ast.walk(m.node):
@@ -269,18 +293,48 @@ def rule_bounds(ctx, mod, ci):
                 for x in ast.walk(t):
                     if isinstance(x, ast.Attribute) and isinstance(x.value, ast.Name) and x.value.id == "self" and x.attr in writers:
                         writers[x.attr].add(mname)
-    for attr in writers:
-        extra = writers[attr] - allowed[attr]
-        ctx.check(not extra, R, "writers[%s]" % attr, mod.where(ci.node), "stores to self.%s" % attr,
-                  "self.%s is also written by %s, bypassing the bounds check of the setter" % (attr, sorted(extra)))
-    # the constructor and set_note route caller data through the setters
+    for attr, hi in (("velocity", 127), ("channel", 15)):
+        extra = sorted(writers[attr] - setters[attr] - {"set_note"})
+        ok, why = True, ""
+        for mname in extra:
+            # a writer this rule has no call shape for: every parameter an unknown integer
+            fi = ci.methods[mname]
+            params = [a.arg for a in fi.node.args.args[1:]]
+            try:
+                paths = paths_of(ctx.repo, fi, lambda: [note_obj(ci, name="C", octave=4, velocity=64, channel=1)] + [Lin.of(Sym("p%d" % i, -INF, INF)) for i in range(len(params))])
+            except CannotDecide as e:
+                raise AnalysisError("%s stores self.%s and cannot be driven with unknown integers: %s" % (mname, attr, e))
+            for p in paths:
+                if p.kind != "return":
+                    continue
+                val = p.interp.args[0].attrs.get(attr)
+                try:
+                    lo, top = p.interp.lin_interval(Lin.of(val))
+                except Exception:
+                    lo, top = -INF, INF
+                if lo < 0 or top > hi:
+                    ok, why = False, "%s(%s) with unknown integers can leave self.%s = %r (%s..%s), outside 0..%d" % (mname, ", ".join(params), attr, val, lo, top, hi)
+        ctx.check(ok, R, "writers[%s]" % attr, mod.where(ci.node), "methods storing self.%s: %s" % (attr, sorted(writers[attr])), why)
+    # set_note takes caller data by keyword and by the deprecated dynamics dict
     fs = _method(ctx, ci, "set_note")
     for kw, attr, hi in (("velocity", "velocity", 127), ("channel", "channel", 15)):
-        bad = Sym(attr, hi + 1, INF)
-        paths = paths_of(ctx.repo, fs, lambda: [note_obj(ci), "C", 4, None], kwargs={kw: Lin.of(bad)})
-        ok = bool(paths) and all(p.kind == "raise" and p.value == "ValueError" for p in paths)
-        ctx.check(ok, R, "set_note.%s" % kw, fs.where(), "set_note('C', 4, %s=<too large>)" % kw,
-                  "an out-of-range %s passes set_note: %s" % (kw, [(p.kind, p.value) for p in paths]))
+        for via in ("keyword", "dynamics"):
+            for label, sym in (("above", Sym(attr, hi + 1, INF)), ("below", Sym(attr, -INF, -1)), ("inside", Sym(attr, 0, hi))):
+                if via == "keyword":
+                    mk, kws = (lambda: [note_obj(ci, name="D", octave=2, velocity=64, channel=1), "C", 4, None]), {kw: Lin.of(sym)}
+                else:
+                    mk, kws = (lambda sym=sym, attr=attr: [note_obj(ci, name="D", octave=2, velocity=64, channel=1), "C", 4, {attr: Lin.of(sym)}]), {}
+                try:
+                    paths = paths_of(ctx.repo, fs, mk, kwargs=kws)
+                except CannotDecide as e:
+                    raise AnalysisError("set_note(%s via %s): %s" % (attr, via, e))
+                if label == "inside":
+                    ok = len(paths) == 1 and paths[0].kind == "return" and Lin.of(paths[0].interp.args[0].attrs.get(attr)) == Lin.of(sym)
+                    why = "an in-range %s given to set_note by %s is not stored: %s" % (attr, via, [(p.kind, p.value) for p in paths])
+                else:
+                    ok = bool(paths) and all(p.kind == "raise" and p.value == "ValueError" for p in paths)
+                    why = "a %s %s the range passes set_note (%s): %s" % (attr, label, via, [(p.kind, p.value) for p in paths])
+                ctx.check(ok, R, "set_note.%s.%s.%s" % (kw, via, label), fs.where(), "set_note('C', 4, %s=<%s> via %s)" % (kw, label, via), why)
 
 
 def rule_ctor_bounds(ctx, mod, ci):
